@@ -82,7 +82,7 @@ CanonP(obs, parents, h, au, iv) ==
   CASE iv.t = "name" -> [t |-> "qn", u |-> DenoteIn(obs, parents, h, iv.n)]
     [] iv.t = "nlit" -> IF iv.T = "anyURI" THEN [t |-> "uri", u |-> iv.u] ELSE [t |-> NativeT[iv.T], v |-> iv.v]
     [] iv.t = "plit" -> [t |-> "str", v |-> iv.v]
-    [] iv.t = "iso"  -> IF IsTimeU(au) THEN [t |-> "dt", v |-> iv.v] ELSE [t |-> "isostr", v |-> iv.v]
+    [] iv.t \in {"iso", "isolit"} -> IF IsTimeU(au) THEN [t |-> "dt", v |-> iv.v] ELSE [t |-> "isostr", v |-> iv.v]
     [] iv.t = "lit"  -> [t |-> "lit", v |-> iv.v, dt |-> iv.dt.ns \o iv.dt.l]
     [] OTHER         -> iv
 (* equality of projected values as Python sees it (1 == True == 1.0) *)
